@@ -262,8 +262,15 @@ func jsonStructFields(fr *frame, st *types.Struct, sv structure, addressable boo
 		if name == "" {
 			name = f.Name()
 		}
-		if strings.Contains(opts, "omitempty") && jsonIsEmpty(f.Type(), sv[i]) {
-			continue
+		if strings.Contains(opts, "omitempty") {
+			if si, ok := sv[i].(symInt); ok {
+				// a symbolic integer may be zero: decide it (fork) rather than assume a non-empty value
+				if fr.i.ex.decide(tEq(si.t, bvConst(0, kindBits(si.k)))) {
+					continue
+				}
+			} else if jsonIsEmpty(f.Type(), sv[i]) {
+				continue
+			}
 		}
 		emit(name, jsonMarshal(fr, f.Type(), sv[i], addressable, depth+1))
 	}
